@@ -28,6 +28,18 @@ CHECKS = {
         note=TB + " Modelled, not verified: nvm_deserialize/nvm_crc32 are represented by NanoVerif.Model.{Crc,Nvm}; 'frees and returns NULL' (no partial module) is observed under ASan in the thorough tier, not proved.",
         technique="Lean 4 proof (bit-level CRC linearity/injectivity, induction over section parsers) + translator + differential correspondence",
         design="6/C12"),
+    "C13": dict(
+        text=("Lean 4 theorems, unbounded: the loader model never reads outside its input for any byte string (load_never_oob, exact uint32 "
+              "comparisons, checked reads); the verifier sweep is sound for the positions it walks (verify_sound_walk) and its structural phase "
+              "bounds every function inside the code section; on a verified module every reachable VM state keeps a valid frame stack "
+              "(<= VM_MAX_FRAMES), a valid current function and fetches only inside the code section, for any instruction budget (run_safe, by "
+              "induction over steps; data instructions cannot produce decoder or table-bounds faults by typing); integer arithmetic incl. "
+              "x/0 and INT64_MIN/-1 is total (vm_arith_total). Termination of loader and verifier is Lean's totality check. The hand-written "
+              "loader/verifier/VM models are tied to the C code by running thousands of structure-aware hostile modules through both "
+              "(ASan+UBSan build, hook-provided instruction budget) and comparing verdict, output and final state."),
+        note=TB + " Partial: memory safety of heap object bodies (strings/arrays) inside libc calls, realloc failure paths, C-stack depth of recursive vm_release on very deep structures, floats, hashmaps, extern calls and linked modules are outside the model (the step answers 'unsupported' and such cases are only observed under sanitizers). Signed-overflow UB of the VM's int64 arithmetic is excluded from the sanitizer build (it wraps with the project's flags).",
+        technique="Lean 4 proof (totality, invariants by induction over steps, typing of outcomes) + translator + differential correspondence under sanitizers",
+        design="6/C13"),
 }
 
 NOT_APPLICABLE = {
